@@ -521,3 +521,88 @@ Theorem tmp_fresh : forall p e k, dom p e = true ->
 Proof. intros. apply (proj1 (tmp_targets_all p)); assumption. Qed.
 Theorem tmp_distinct : forall p e k, dom p e = true -> NoDup (tmp_targets (fst (rw p k e))).
 Proof. intros. apply (proj1 (tmp_targets_all p)); assumption. Qed.
+
+(* ---- the rewriting for function N refers to no other function's table *)
+Lemma mentions_eapp : forall x a b, mentions_list x (eapp a b) = mentions_list x a || mentions_list x b.
+Proof. induction a; simpl; intros; auto. rewrite IHa. apply orb_assoc. Qed.
+Lemma foreign_rw_name : forall p x y, foreign p x = true -> name_eqb x (rw_name p y) = true -> name_eqb x y = true.
+Proof.
+  intros p x y Hf H. destruct y; simpl in *; auto. destruct (is_sym (p_rs p) i); auto.
+  apply name_eqb_eq in H. subst x. simpl in Hf. rewrite Nat.eqb_refl in Hf. discriminate.
+Qed.
+Lemma foreign_tmp_args : forall p x n i a, foreign p x = true -> mentions_args x (tmp_args n i a) = false.
+Proof. intros p x n i a Hf. revert i. induction a; simpl; intros; auto. rewrite IHa. destruct x; simpl in *; try discriminate; reflexivity. Qed.
+Lemma foreign_tmp_kws : forall p x n a, foreign p x = true -> mentions_kws x (tmp_kws n a) = false.
+Proof. intros p x n a Hf. induction a; simpl; intros; auto. rewrite IHa. destruct x; simpl in *; try discriminate; reflexivity. Qed.
+
+Lemma own_id_all : forall p x, foreign p x = true ->
+  (forall e k, mentions x (fst (rw p k e)) = true -> mentions x e = true) /\
+  (forall es k, mentions_list x (fst (rw_list p k es)) = true -> mentions_list x es = true) /\
+  (forall a k, (mentions_args x (fst (rw_args p k a)) = true -> mentions_args x a = true) /\
+               (forall n i, mentions_list x (fst (rw_pos p n i k a)) = true -> mentions_args x a = true)) /\
+  (forall a k, (mentions_kws x (fst (rw_kws p k a)) = true -> mentions_kws x a = true) /\
+               (forall n, mentions_list x (fst (rw_kwparts p n k a)) = true -> mentions_kws x a = true)).
+Proof.
+  intros p x Hf. apply expr_mutind; intros; simpl in *; auto.
+  - (* EName *) eapply foreign_rw_name; eauto.
+  - (* EAttr *) dlet; nrm; simpl in *. eauto.
+  - (* EBin *) dlet; nrm; simpl in *. apply orb_true_iff in H1. apply orb_true_iff. destruct H1; [left|right]; eauto.
+  - (* EBool *) dlet; nrm; simpl in *. eauto.
+  - (* EIf *) dlet; nrm; simpl in *. apply orb_true_iff in H2. destruct H2 as [H2|H2]; [apply orb_true_iff in H2; destruct H2|].
+    + rewrite (H _ H2). reflexivity.
+    + rewrite (H0 _ H2). rewrite orb_true_r. reflexivity.
+    + rewrite (H1 _ H2). rewrite !orb_true_r. reflexivity.
+  - (* ECall *)
+    destruct (site p f) eqn:Es; [destruct (has_star ar) eqn:Est|]; dlet; nrm; simpl in *.
+    + apply orb_true_iff in H2. destruct H2 as [H2|H2]; [apply orb_true_iff in H2; destruct H2 as [H2|H2]|].
+      * rewrite (H _ H2). reflexivity.
+      * rewrite (proj1 (H0 _) H2). rewrite orb_true_r. reflexivity.
+      * rewrite (proj1 (H1 _) H2). rewrite !orb_true_r. reflexivity.
+    + assert (Hm : name_eqb x (NMap (p_id p)) = false).
+      { destruct x; simpl in *; try reflexivity. apply negb_true_iff in Hf. exact Hf. }
+      rewrite Hm in H2. simpl in H2.
+      assert (Hself : mentions_args x (self_arg p (tmp_args k 0 ar)) = false).
+      { unfold self_arg. destruct (a_method (p_anal p)); simpl; rewrite (foreign_tmp_args p x k 0 ar Hf); auto.
+        destruct x; simpl in *; try discriminate; reflexivity. }
+      rewrite Hself, (foreign_tmp_kws p x k kw Hf), !orb_false_r in H2.
+      assert (Hcode : mentions_list x (code_part p b (eapp (fst (rw_pos p k 0 (S k) ar)) (fst (rw_kwparts p k (snd (rw_pos p k 0 (S k) ar)) kw)))) =
+                      mentions_list x (eapp (fst (rw_pos p k 0 (S k) ar)) (fst (rw_kwparts p k (snd (rw_pos p k 0 (S k) ar)) kw)))).
+      { destruct b; simpl; auto. destruct x; simpl in *; try reflexivity. apply negb_true_iff in Hf. rewrite Hf. reflexivity. }
+      rewrite Hcode, mentions_eapp in H2. apply orb_true_iff in H2. destruct H2 as [H2|H2].
+      * rewrite (proj2 (H0 _) _ _ H2). rewrite orb_true_r. reflexivity.
+      * rewrite (proj2 (H1 _) _ H2). rewrite !orb_true_r. reflexivity.
+    + apply orb_true_iff in H2. destruct H2 as [H2|H2]; [apply orb_true_iff in H2; destruct H2 as [H2|H2]|].
+      * rewrite (H _ H2). reflexivity.
+      * rewrite (proj1 (H0 _) H2). rewrite orb_true_r. reflexivity.
+      * rewrite (proj1 (H1 _) H2). rewrite !orb_true_r. reflexivity.
+  - (* ENamed *) dlet; nrm; simpl in *. apply orb_true_iff in H0. apply orb_true_iff. destruct H0; [left; eapply foreign_rw_name; eauto | right; eauto].
+  - (* ELam *) dlet; nrm; simpl in *. apply orb_true_iff in H0. apply orb_true_iff. destruct H0; [left | right]; eauto.
+  - (* EComp *) dlet; nrm; simpl in *.
+    apply orb_true_iff in H2. destruct H2 as [H2|H2]; [apply orb_true_iff in H2; destruct H2 as [H2|H2]; [apply orb_true_iff in H2; destruct H2 as [H2|H2]|]|].
+    + rewrite (foreign_rw_name p x x0 Hf H2). reflexivity.
+    + rewrite (H _ H2). rewrite orb_true_r. reflexivity.
+    + rewrite (H0 _ H2). rewrite !orb_true_r. reflexivity.
+    + rewrite (H1 _ H2). rewrite !orb_true_r. reflexivity.
+  - (* EFstr *) dlet; nrm; simpl in *. eauto.
+  - (* EEffect *) dlet; nrm; simpl in *. eauto.
+  - (* ETuple *) dlet; nrm; simpl in *. eauto.
+  - (* ESub *) dlet; nrm; simpl in *. apply orb_true_iff in H1. apply orb_true_iff. destruct H1; [left|right]; eauto.
+  - (* ECons *) dlet; nrm; simpl in *. apply orb_true_iff in H1. apply orb_true_iff. destruct H1; [left|right]; eauto.
+  - (* ACons *) split.
+    + intros Hm. dlet; nrm; simpl in *. apply orb_true_iff in Hm. apply orb_true_iff. destruct Hm as [Hm|Hm]; [left; eauto | right; apply (proj1 (H0 _) Hm)].
+    + intros n i Hm. dlet; nrm; simpl in *.
+      assert (Ht : name_eqb x (type_name p (KPos i)) = false) by (unfold type_name; destruct (subtle _ _); destruct x; simpl in *; try discriminate; reflexivity).
+      assert (Htm : name_eqb x (NTmp n (KPos i)) = false) by (destruct x; simpl in *; try discriminate; reflexivity).
+      rewrite Ht, Htm in Hm. simpl in Hm. rewrite !orb_false_r in Hm.
+      apply orb_true_iff in Hm. apply orb_true_iff. destruct Hm as [Hm|Hm]; [left; eauto | right; apply (proj2 (H0 _) _ _ Hm)].
+  - (* KCons *) split.
+    + intros Hm. dlet; nrm; simpl in *. apply orb_true_iff in Hm. apply orb_true_iff. destruct Hm as [Hm|Hm]; [left; eauto | right; apply (proj1 (H0 _) Hm)].
+    + intros n Hm. dlet; nrm; simpl in *.
+      assert (Ht : name_eqb x (type_name p (KKw k)) = false) by (unfold type_name; destruct (subtle _ _); destruct x; simpl in *; try discriminate; reflexivity).
+      assert (Htm : name_eqb x (NTmp n (KKw k)) = false) by (destruct x; simpl in *; try discriminate; reflexivity).
+      rewrite Ht, Htm in Hm. simpl in Hm. rewrite !orb_false_r in Hm.
+      apply orb_true_iff in Hm. apply orb_true_iff. destruct Hm as [Hm|Hm]; [left; eauto | right; apply (proj2 (H0 _) _ Hm)].
+Qed.
+
+Theorem own_id : forall p x e k, foreign p x = true -> mentions x (fst (rw p k e)) = true -> mentions x e = true.
+Proof. intros p x e k Hf. apply (proj1 (own_id_all p x Hf)). Qed.
